@@ -9,21 +9,25 @@ package main
 //	  alias  *string  unique index (nullable)             things  back-references of A.owner (fk index)
 //	  roles  []string set index                           members link collection B.members <-> A.groups
 //	  owner  *string  nullable fk index -> B.things
+//	  dep    *string  nullable fk constraint -> B, cascade delete (deleting the owner deletes its dependants)
 //	  groups []string link collection A.groups <-> B.members
-//	store A1: plain child of A (entity path ["ext1"]): code string, own unique index (non-nullable)
+//	  rcB             ref-counted link collection A.rcB <-> B.rcA (IncrementLinkCount / DecrementLinkCount / SetLinkCount)
+//	store A1: plain child of A (entity path ["ext1"]): code string, own unique index (non-nullable),
+//	          pals []string link collection OWNED BY THE CHILD STORE  A1.pals <-> B.palsOf
 //
 // Case line:   h <vals> <tx>|<tx>|...        (same framing as C03)
 //
-//	ca:<id>:<name>:<alias>:<roles>:<owner>:<groups>             A.Create
-//	ua:<id>:<name>:<alias>:<roles>:<owner>:<groups>:<chk>       A.Update, <chk> = * | subset of "narog" | 0
+//	ca:<id>:<name>:<alias>:<roles>:<owner>:<dep>:<groups>       A.Create
+//	ua:<id>:<name>:<alias>:<roles>:<owner>:<dep>:<groups>:<chk> A.Update, <chk> = * | subset of "narodg" | 0
 //	da:<id>                                                     A.DeleteById
-//	cc:<id>:<name>:<alias>:<roles>:<owner>:<groups>:<code>      A1.Create (through the child store)
+//	cc:<id>:<name>:<alias>:<roles>:<owner>:<dep>:<groups>:<code>:<pals>   A1.Create (through the child store)
+//	ri:<a>:<b>  rd:<a>:<b>  rs:<a>:<b>:<n>                      Increment / Decrement / SetLinkCount on A.rcB
 //	dc:<id>                                                     A1.DeleteById (delegates to the parent)
 //	cb:<id>:<label>      ub:<id>:<label>:<chk> (* | l | 0)      db:<id>         B.Create / Update / DeleteById
 //
 // Output record per tx:  <res>#<dump>#<reads>#<deleted>
 //
-//	<deleted>  for every id deleted by an operation of a committed tx and absent afterwards:
+//	<deleted>  for every entity id (either store) present before a committed tx and absent after it (cascades included):
 //	           <id>=<boltz.ValidateDeleted verdict>/<independent byte scan verdict>, "." when none
 
 import (
@@ -48,6 +52,7 @@ type c06Thing struct {
 	Alias  *string
 	Roles  []string
 	Owner  *string
+	Dep    *string
 	Groups []string
 }
 
@@ -63,6 +68,7 @@ func (c06ThingStrategy) FillEntity(e *c06Thing, b *boltz.TypedBucket) {
 	e.Alias = b.GetString("alias")
 	e.Roles = b.GetStringList("roles")
 	e.Owner = b.GetString("owner")
+	e.Dep = b.GetString("dep")
 	e.Groups = b.GetStringList("groups")
 }
 func (c06ThingStrategy) PersistEntity(e *c06Thing, ctx *boltz.PersistContext) {
@@ -70,12 +76,14 @@ func (c06ThingStrategy) PersistEntity(e *c06Thing, ctx *boltz.PersistContext) {
 	ctx.SetStringP("alias", e.Alias)
 	ctx.SetStringList("roles", e.Roles)
 	ctx.SetStringP("owner", e.Owner)
+	ctx.SetStringP("dep", e.Dep)
 	ctx.SetLinkedIds("groups", append([]string{}, e.Groups...))
 }
 
 type c06Ext struct {
 	c06Thing
 	Code string
+	Pals []string
 }
 
 type c06ExtStrategy struct{ parent *boltz.BaseStore[*c06Thing] }
@@ -85,10 +93,12 @@ func (s *c06ExtStrategy) FillEntity(e *c06Ext, b *boltz.TypedBucket) {
 	_, err := s.parent.LoadEntity(b.Tx(), e.Id, &e.c06Thing)
 	b.SetError(err)
 	e.Code = b.GetStringWithDefault("code", "")
+	e.Pals = b.GetStringList("pals")
 }
 func (s *c06ExtStrategy) PersistEntity(e *c06Ext, ctx *boltz.PersistContext) {
 	s.parent.GetEntityStrategy().PersistEntity(&e.c06Thing, ctx.GetParentContext())
 	ctx.SetString("code", e.Code)
+	ctx.SetLinkedIds("pals", append([]string{}, e.Pals...))
 }
 
 type c06Owner struct {
@@ -116,6 +126,7 @@ type c06Stores struct {
 	idxName, idxAlias, idxCode, idxLabel boltz.ReadIndex
 	idxRoles                             boltz.SetReadIndex
 	groups, members                      boltz.LinkCollection
+	rcAB                                 boltz.RefCountedLinkCollection
 }
 
 func c06Wire() *c06Stores {
@@ -163,13 +174,24 @@ func c06Wire() *c06Stores {
 	s.idxRoles = s.things.AddSetIndex(symRoles)
 	symOwner := s.things.AddFkSymbol("owner", s.owners)
 	s.things.AddNullableFkIndex(symOwner, symThings)
+	symDep := s.things.AddFkSymbol("dep", s.owners)
+	s.things.AddFkConstraint(symDep, true, boltz.CascadeDelete)
 	symGroups := s.things.AddFkSetSymbol("groups", s.owners)
 	s.groups = s.things.AddLinkCollection(symGroups, symMembers)
 	s.members = s.owners.AddLinkCollection(symMembers, symGroups)
+	symRcB := s.things.AddFkSetSymbol("rcB", s.owners)
+	symRcA := s.owners.AddFkSetSymbol("rcA", s.things)
+	s.rcAB = s.things.AddRefCountedLinkCollection(symRcB, symRcA)
+	s.owners.AddRefCountedLinkCollection(symRcA, symRcB)
 
 	s.things.GrantSymbols(s.ext)
 	symCode := s.ext.AddSymbol("code", ast.NodeTypeString)
 	s.idxCode = s.ext.AddUniqueIndex(symCode)
+	// a link collection declared on the child store
+	symPals := s.ext.AddFkSetSymbol("pals", s.owners)
+	symPalsOf := s.owners.AddFkSetSymbol("palsOf", s.ext)
+	s.ext.AddLinkCollection(symPals, symPalsOf)
+	s.owners.AddLinkCollection(symPalsOf, symPals)
 	return s
 }
 
@@ -180,10 +202,14 @@ type c06Op struct {
 	alias  *string
 	roles  []string
 	owner  *string
+	dep    *string
 	groups []string
 	code   string
+	pals   []string
 	label  *string
 	chk    string
+	other  string // second id of the ref-counted link operations
+	count  int
 }
 
 func c06ParseOp(s string) c06Op {
@@ -195,34 +221,49 @@ func c06ParseOp(s string) c06Op {
 		op.alias = csParseOpt(f[3])
 		op.roles = csParseList(f[4])
 		op.owner = csParseOpt(f[5])
-		op.groups = csParseList(f[6])
+		op.dep = csParseOpt(f[6])
+		op.groups = csParseList(f[7])
 		if op.kind == "ua" {
-			op.chk = f[7]
+			op.chk = f[8]
 		}
 		if op.kind == "cc" {
-			op.code = fromWire(f[7])
+			op.code = fromWire(f[8])
+			op.pals = csParseList(f[9])
 		}
 	case "cb":
 		op.label = csParseOpt(f[2])
 	case "ub":
 		op.label = csParseOpt(f[2])
 		op.chk = f[3]
+	case "ri", "rd":
+		op.other = fromWire(f[2])
+	case "rs":
+		op.other = fromWire(f[2])
+		fmt.Sscanf(f[3], "%d", &op.count)
 	}
 	return op
 }
 
 func c06FmtOp(op c06Op) string {
+	base := func() string {
+		return fmt.Sprintf("%s:%s:%s:%s:%s:%s:%s:%s", op.kind, toWire(op.id), toWire(op.name), csOpt(op.alias), csList(op.roles),
+			csOpt(op.owner), csOpt(op.dep), csList(op.groups))
+	}
 	switch op.kind {
 	case "ca":
-		return fmt.Sprintf("ca:%s:%s:%s:%s:%s:%s", toWire(op.id), toWire(op.name), csOpt(op.alias), csList(op.roles), csOpt(op.owner), csList(op.groups))
+		return base()
 	case "ua":
-		return fmt.Sprintf("ua:%s:%s:%s:%s:%s:%s:%s", toWire(op.id), toWire(op.name), csOpt(op.alias), csList(op.roles), csOpt(op.owner), csList(op.groups), op.chk)
+		return base() + ":" + op.chk
 	case "cc":
-		return fmt.Sprintf("cc:%s:%s:%s:%s:%s:%s:%s", toWire(op.id), toWire(op.name), csOpt(op.alias), csList(op.roles), csOpt(op.owner), csList(op.groups), toWire(op.code))
+		return base() + ":" + toWire(op.code) + ":" + csList(op.pals)
 	case "cb":
 		return fmt.Sprintf("cb:%s:%s", toWire(op.id), csOpt(op.label))
 	case "ub":
 		return fmt.Sprintf("ub:%s:%s:%s", toWire(op.id), csOpt(op.label), op.chk)
+	case "ri", "rd":
+		return fmt.Sprintf("%s:%s:%s", op.kind, toWire(op.id), toWire(op.other))
+	case "rs":
+		return fmt.Sprintf("rs:%s:%s:%d", toWire(op.id), toWire(op.other), op.count)
 	}
 	return op.kind + ":" + toWire(op.id)
 }
@@ -240,12 +281,12 @@ func c06Checker(chk string, names map[byte]string) boltz.FieldChecker {
 	return m
 }
 
-var c06AFields = map[byte]string{'n': "name", 'a': "alias", 'r': "roles", 'o': "owner", 'g': "groups"}
+var c06AFields = map[byte]string{'n': "name", 'a': "alias", 'r': "roles", 'o': "owner", 'd': "dep", 'g': "groups"}
 var c06BFields = map[byte]string{'l': "label"}
 
 func (s *c06Stores) thing(op c06Op) *c06Thing {
 	return &c06Thing{Id: op.id, Name: op.name, Alias: op.alias, Roles: append([]string{}, op.roles...), Owner: op.owner,
-		Groups: append([]string{}, op.groups...)}
+		Dep: op.dep, Groups: append([]string{}, op.groups...)}
 }
 
 func (s *c06Stores) apply(ctx boltz.MutateContext, op c06Op) error {
@@ -257,7 +298,7 @@ func (s *c06Stores) apply(ctx boltz.MutateContext, op c06Op) error {
 	case "da":
 		return s.things.DeleteById(ctx, op.id)
 	case "cc":
-		return s.ext.Create(ctx, &c06Ext{c06Thing: *s.thing(op), Code: op.code})
+		return s.ext.Create(ctx, &c06Ext{c06Thing: *s.thing(op), Code: op.code, Pals: append([]string{}, op.pals...)})
 	case "dc":
 		return s.ext.DeleteById(ctx, op.id)
 	case "cb":
@@ -266,6 +307,15 @@ func (s *c06Stores) apply(ctx boltz.MutateContext, op c06Op) error {
 		return s.owners.Update(ctx, &c06Owner{Id: op.id, Label: op.label}, c06Checker(op.chk, c06BFields))
 	case "db":
 		return s.owners.DeleteById(ctx, op.id)
+	case "ri":
+		_, err := s.rcAB.IncrementLinkCount(ctx.Tx(), []byte(op.id), []byte(op.other))
+		return err
+	case "rd":
+		_, err := s.rcAB.DecrementLinkCount(ctx.Tx(), []byte(op.id), []byte(op.other))
+		return err
+	case "rs":
+		_, _, err := s.rcAB.SetLinkCount(ctx.Tx(), []byte(op.id), []byte(op.other), op.count)
+		return err
 	}
 	panic("bad op " + op.kind)
 }
@@ -307,6 +357,7 @@ func c06Exec(line string) string {
 	}
 	var recs []string
 	prev := ""
+	live := map[string]bool{}
 	for _, txs := range strings.Split(f[2], "|") {
 		var ops []c06Op
 		for _, o := range strings.Split(txs, ",") {
@@ -332,35 +383,30 @@ func c06Exec(line string) string {
 			var raw []csRawLine
 			dump, raw = csDump(tx)
 			reads = s.reads(tx, vals)
+			now := map[string]bool{}
+			for _, l := range raw {
+				if l.isB && len(l.path) == 2 && l.path[0] == "u" && (l.path[1] == "things" || l.path[1] == "owners") {
+					now[string(l.key)] = true
+				}
+			}
 			if err == nil {
-				seen := map[string]bool{}
 				var parts []string
-				for _, op := range ops {
-					if op.kind != "da" && op.kind != "dc" && op.kind != "db" {
+				for id := range live {
+					if now[id] {
 						continue
-					}
-					if seen[op.id] {
-						continue
-					}
-					seen[op.id] = true
-					present := s.things.IsEntityPresent(tx, op.id)
-					if op.kind == "db" {
-						present = s.owners.IsEntityPresent(tx, op.id)
-					}
-					if present {
-						continue // re-created later in the same transaction
 					}
 					v := "ok"
-					if verr := boltz.ValidateDeleted(tx, op.id); verr != nil {
+					if verr := boltz.ValidateDeleted(tx, id); verr != nil {
 						v = "found"
 					}
-					parts = append(parts, toWire(op.id)+"="+v+"/"+csScanFor(raw, op.id))
+					parts = append(parts, toWire(id)+"="+v+"/"+csScanFor(raw, id))
 				}
 				sort.Strings(parts)
 				if len(parts) > 0 {
 					deleted = strings.Join(parts, ",")
 				}
 			}
+			live = now
 			return nil
 		})
 		shown := dump
@@ -423,9 +469,19 @@ func (sh *c06Shadow) apply(op c06Op) bool {
 		if e.owner != nil && *e.owner != "" && !sh.b[*e.owner] {
 			return false
 		}
+		if e.dep != nil && *e.dep != "" && !sh.b[*e.dep] {
+			return false
+		}
 		for _, g := range e.groups {
 			if !sh.b[g] {
 				return false
+			}
+		}
+		if e.kind == "cc" {
+			for _, g := range e.pals {
+				if !sh.b[g] {
+					return false
+				}
 			}
 		}
 		return e.name != "" && !sh.nameTaken(e.id, e.name)
@@ -460,6 +516,9 @@ func (sh *c06Shadow) apply(op c06Op) bool {
 		if all || strings.Contains(op.chk, "o") {
 			e.owner = op.owner
 		}
+		if all || strings.Contains(op.chk, "d") {
+			e.dep = op.dep
+		}
 		if all || strings.Contains(op.chk, "g") {
 			e.groups = op.groups
 		}
@@ -487,6 +546,11 @@ func (sh *c06Shadow) apply(op c06Op) bool {
 			return false
 		}
 		delete(sh.b, op.id)
+		for aid, e := range sh.a {
+			if e.dep != nil && *e.dep == op.id {
+				delete(sh.a, aid) // cascade
+			}
+		}
 		for _, e := range sh.a {
 			var gs []string
 			for _, g := range e.groups {
@@ -497,6 +561,8 @@ func (sh *c06Shadow) apply(op c06Op) bool {
 			e.groups = gs
 		}
 		return true
+	case "ri", "rd", "rs":
+		return sh.a[op.id] != nil && sh.b[op.other]
 	}
 	return false
 }
@@ -549,13 +615,28 @@ func (sh *c06Shadow) genAVals(r *rng, op *c06Op) {
 		e := ""
 		op.owner = &e
 	}
+	op.dep = nil
+	switch r.intn(6) {
+	case 0, 1:
+		v := bpick()
+		op.dep = &v
+	case 2:
+		e := ""
+		op.dep = &e
+	}
 	op.groups = nil
 	for i, n := 0, r.intn(3); i < n; i++ {
 		op.groups = append(op.groups, bpick())
 	}
+	op.pals = nil
+	if op.kind == "cc" {
+		for i, n := 0, r.intn(3); i < n; i++ {
+			op.pals = append(op.pals, bpick())
+		}
+	}
 }
 
-var c06AChks = []string{"*", "*", "*", "n", "a", "r", "o", "g", "no", "rg", "og", "nar", "narog", "0", "ao"}
+var c06AChks = []string{"*", "*", "*", "n", "a", "r", "o", "d", "g", "no", "rg", "od", "dg", "nar", "narodg", "0", "ao"}
 
 func c06GenOp(r *rng, sh *c06Shadow, aIds []string) c06Op {
 	liveA := func(id string) bool { return sh.a[id] != nil }
@@ -582,14 +663,24 @@ func c06GenOp(r *rng, sh *c06Shadow, aIds []string) c06Op {
 		}
 		sh.genAVals(r, &op)
 		return op
-	case k < 50: // update / patch A
+	case k < 30: // ref-counted link churn: counts of 2 and more are the interesting ones
+		op := c06Op{kind: "ri", id: c06PickId(r, aIds, liveA, true), other: c06PickId(r, c06BIds, liveB, !r.chance(1, 12))}
+		switch r.intn(6) {
+		case 0:
+			op.kind = "rd"
+		case 1:
+			op.kind = "rs"
+			op.count = r.intn(4)
+		}
+		return op
+	case k < 52: // update / patch A
 		op := c06Op{kind: "ua", id: c06PickId(r, aIds, liveA, true), chk: pick(r, c06AChks)}
 		sh.genAVals(r, &op)
 		if old := sh.a[op.id]; old != nil && r.chance(1, 5) {
 			op.name, op.owner = old.name, old.owner
 		}
 		return op
-	case k < 72: // delete A
+	case k < 70: // delete A
 		kind := "da"
 		if r.chance(1, 3) {
 			kind = "dc"
